@@ -71,3 +71,21 @@ impl WordMapBuilder {
         })
     }
 }
+
+#[cfg(feature = "verif")]
+impl WordMap {
+    pub fn verif_from_parts(trie_bytes: &[u8], postings: Vec<u32>) -> Self {
+        Self {
+            trie: Trie::verif_from_bytes(trie_bytes),
+            postings: Postings::verif_from_data(postings),
+        }
+    }
+
+    pub fn verif_trie_bytes(&self) -> Vec<u8> {
+        self.trie.verif_to_bytes()
+    }
+
+    pub fn verif_postings(&self) -> &[u32] {
+        self.postings.verif_data()
+    }
+}
